@@ -21,13 +21,26 @@ Only property statements live here; helper lemmas are in `Lemmas/NormalizeDoc.le
    `(?<![^\n]) +\n`) the code-block processor makes a `<pre><code>` of it, while the same document without the STX
    is blank and answers `''`.  `C09_doc_ctl` therefore has the hypothesis that stripping does not change blankness
    (true whenever the stripped text is not blank: `C09_doc_ctl_of_not_blank`).
-3. Blank-line padding, through the block parser: `C09_doc_leading` (unconditional: leading empty blocks are consumed
-   by the empty-block processor at the childless root), `C09_doc_trailing` / `C09_doc_padding` …
+3. Blank-line padding, through the block parser:
+   * `C09_doc_leading` — unconditional: leading empty blocks are consumed by the empty-block processor at the
+     childless root;
+   * `C09_doc_trailing_noCode`, `C09_doc_padding_noCode` — unconditional for documents whose tree does not end in a
+     code block: the trailing empty blocks do nothing;
+   * `C09_doc_trailing`, `C09_doc_padding` — every document.  When the tree ends in a code block, the trailing empty
+     blocks append fillers (`"\n\n"`, `"\n"`) to its text.  The proof shows (i) every `pre` child of the root of a
+     parsed document is exactly `pre[code(atomic text)]` (`parseDocument_top`, an invariant of all eleven block
+     processors), (ii) `InlineProcessor.run` makes the same steps whatever that text is (`run_lock`: lockstep of the
+     stack loop), (iii) `prettify` strips the fillers (`prettify_cpre`).  Because termination of the model's
+     `Inline.run` within its fuel is not proved in this project (`C02Inline`), and the fuel depends on the size of the
+     tree, the statement carries the hypotheses that neither conversion is `oof` ("out of fuel", never observed).
+   The model's `prepare` is `Extract.extract ∘ normalize`; `extract_nl` shows that the raw-HTML preprocessor copies
+   line feeds behind the text and is not influenced by them.
 -/
 import MdVerif.Model.Pipeline
 import MdVerif.Spec.Normalize
 import MdVerif.Props.C09
 import MdVerif.Lemmas.NormalizeDoc
+import MdVerif.Lemmas.NormalizeDocCode
 
 namespace MdVerif.Pipeline
 open Py Normalize NormDoc
@@ -204,5 +217,49 @@ theorem C09_doc_padding_noCode (cfg : Cfg) (src : Str) (k m : Nat)
     (h : ∀ root refs, Block.parseDocument cfg.tab (prepare cfg src) = some (root, refs) → noCodeLast root) :
     convert cfg (List.replicate k '\n' ++ src ++ List.replicate m '\n') = convert cfg src := by
   rw [List.append_assoc, C09_doc_leading, C09_doc_trailing_noCode cfg src m h]
+
+/-- the hypothesis `noCodeLast` as a computation: `(root.last?.bind preCode).isNone` -/
+theorem C09_noCodeLast_iff (p : Node) : noCodeLast p ↔ (p.last?.bind Block.preCode).isNone = true := by
+  unfold noCodeLast
+  cases p.last? with
+  | none => simp
+  | some sib => cases h : Block.preCode sib <;> simp [h]
+
+-- a heading and a list, ending in `\r`: no trailing code block
+example : (Block.parseDocument 4 (prepare {} "# a\n\n* b\r".toList)).map
+    (fun r => (r.1.last?.bind Block.preCode).isNone) = some true := by decide +kernel
+
+/-- **Blank lines behind any document.**  `m` more line feeds behind the source: the same conversion, provided
+    neither conversion runs out of the model's fuel (see the header; `oof` has never been observed, and the fuel
+    bound of `Inline.run` is the one statement of `C02Inline` that is not proved).  When the document ends in a code
+    block the trailing blank lines do reach the tree — as `"\n"`s appended to the code text — and are removed by
+    `PrettifyTreeprocessor`'s `rstrip`. -/
+theorem C09_doc_trailing (cfg : Cfg) (src : Str) (m : Nat) (h0 : convert cfg src ≠ .oof)
+    (h1 : convert cfg (src ++ List.replicate m '\n') ≠ .oof) :
+    convert cfg (src ++ List.replicate m '\n') = convert cfg src :=
+  convert_trailing cfg src m h0 h1
+
+example : convert {} "a\n\n    b\r".toList ≠ .oof ∧
+    convert {} ("a\n\n    b\r".toList ++ List.replicate 3 '\n') ≠ .oof := by decide +kernel
+
+/-- **C09, blank-line padding.**  Any number of blank lines before and after any document: the same conversion
+    (same proviso). -/
+theorem C09_doc_padding (cfg : Cfg) (src : Str) (k m : Nat) (h0 : convert cfg src ≠ .oof)
+    (h1 : convert cfg (List.replicate k '\n' ++ src ++ List.replicate m '\n') ≠ .oof) :
+    convert cfg (List.replicate k '\n' ++ src ++ List.replicate m '\n') = convert cfg src := by
+  rw [List.append_assoc, C09_doc_leading] at h1 ⊢
+  exact C09_doc_trailing cfg src m h0 h1
+
+/-- a document that ends in a code block, padded: the fillers are in the tree (the text of the `code` element), not
+    in the output -/
+example :
+    convert {} ("\n\n\n".toList ++ "a\n\n    b".toList ++ "\n\n\n".toList) =
+      .ok "<p>a</p>\n<pre><code>b\n</code></pre>".toList ∧
+    convert {} "a\n\n    b".toList = .ok "<p>a</p>\n<pre><code>b\n</code></pre>".toList ∧
+    (Block.parseDocument 4 (prepare {} "    b\n\n\n".toList)).map
+      (fun r => r.1.children.map (fun c => c.children.map (·.text))) = some [[some "b\n\n\n\n".toList]] ∧
+    (Block.parseDocument 4 (prepare {} "    b".toList)).map
+      (fun r => r.1.children.map (fun c => c.children.map (·.text))) = some [[some "b\n\n\n".toList]] := by
+  decide +kernel
 
 end MdVerif.Pipeline
